@@ -2467,6 +2467,47 @@ pub fn c17_core(ptext: &str, p: &Pos, c: &C17Case, st: &mut Stats) -> CaseResult
         measure(&mut e2)
     })
     .map_err(|m| format!("unknown tokens inside go changed the time used: {} [`{}`]", m, go))?;
+    // lines that arrive WHILE the engine is thinking: a position command (another position), an
+    // ignorable line, and now and then `stop`. They must be dealt with in order once the answer is
+    // out (or at once, by an engine that reads ahead): exactly one legal bestmove for the go, and
+    // afterwards the engine stands on the other position.
+    if c.slice % 3 != 0 {
+        let others = ["position startpos", "position startpos moves e2e4 e7e5", "position fen 8/8/8/4k3/8/8/4P3/4K3 w - - 0 1", "position fen r3k2r/8/8/8/8/8/8/R3K2R b KQkq - 0 1"];
+        let mut oi = (c.go_noise as usize) % others.len();
+        if others[oi] == ptext {
+            oi = (oi + 1) % others.len();
+        }
+        let other = others[oi];
+        let op = position_from_text(other)?;
+        e.send(other);
+        let base_other = do_go(&mut e, "go", 0)?.bestmove.unwrap_or_default();
+        check_bestmove(&base_other, &op)?;
+        e.send(&ptext);
+        e.drain();
+        let with_stop = c.slice % 4 == 1;
+        let filler = sanitize_junk(c.junk.first().map(|x| x.1.as_str()).filter(|x| x.len() < 200).unwrap_or("xyzzy plugh"));
+        e.send(&go);
+        e.send(other);
+        e.send(&filler);
+        if with_stop {
+            e.send("stop");
+        }
+        let (lines, ok) = e.read_until(|l| l.starts_with("bestmove"), Duration::from_millis(plan + HARD_WAIT_MS));
+        if !ok {
+            return Err(format!("`{}` followed at once by `{}`, {:?}{} was not answered with a bestmove line within plan {} ms + {} ms ({})", go, other, filler, if with_stop { ", `stop`" } else { "" }, plan, HARD_WAIT_MS, e.context()));
+        }
+        let bm = lines.last().map(|x| x.1.clone()).unwrap_or_default();
+        check_bestmove(&bm, &p).map_err(|m| format!("{} [`{}` with `{}`, {:?}{} arriving during the search]", m, go, other, filler, if with_stop { ", `stop`" } else { "" }))?;
+        let fence = e.isready(Duration::from_secs(5))?;
+        if fence.iter().any(|l| l.starts_with("bestmove")) {
+            return Err(format!("`{}` with lines arriving during the search produced more than one bestmove line", go));
+        }
+        let after = do_go(&mut e, "go", 0)?.bestmove.unwrap_or_default();
+        if after != base_other {
+            return Err(format!("`{}` and {:?} arrived while the engine was searching [{} ; {}]; afterwards the zero-allowance answer is {:?}, but for `{}` it is {:?}", other, filler, ptext, go, after, other, base_other));
+        }
+        st.label(if with_stop { "lines_and_stop_arriving_during_a_search" } else { "lines_arriving_during_a_search" });
+    }
     // endings
     let t_end = Instant::now();
     let limit;
